@@ -23,7 +23,6 @@
 package queue
 
 import (
-	"sync"
 	"sync/atomic"
 	"unsafe"
 )
@@ -33,7 +32,6 @@ type Queue struct {
 	head unsafe.Pointer // pointer to the head of the queue
 	tail unsafe.Pointer // pointer to the tail of the queue
 	len  int64          // length of the queue
-	pool sync.Pool
 }
 
 // item is a single node in the queue.
@@ -50,19 +48,19 @@ func NewQueue() *Queue {
 		head: unsafe.Pointer(dummy), // both head and tail point to the dummy node
 		tail: unsafe.Pointer(dummy),
 		len:  0,
-		pool: sync.Pool{
-			New: func() any {
-				return &item{}
-			},
-		},
 	}
 }
 
 // Enqueue adds a value to the tail of the queue.
 func (q *Queue) Enqueue(v any) {
-	// Get a node from the pool
-	newNode := q.getItem()
-	newNode.v = v
+	// Nodes are never reused. The compare-and-swap steps below identify a node by
+	// its address, so handing a dequeued node out again (the queue used to recycle
+	// them through a sync.Pool) lets a stalled producer link behind a node that
+	// has left the list, or a stalled consumer move head onto one: events were
+	// lost, reordered or delivered late, and enqueuers could spin for ever on a
+	// node linked to itself. With fresh nodes the garbage collector guarantees
+	// that an address is not reused while any thread still holds it.
+	newNode := &item{v: v}
 	newNodePtr := unsafe.Pointer(newNode)
 
 	for {
@@ -103,14 +101,12 @@ func (q *Queue) Dequeue() any {
 
 		nextNode := (*item)(next)
 
+		// read the value before the swap: afterwards the node is the new
+		// sentinel and belongs to whoever dequeues next
+		value := nextNode.v
+
 		// Try to advance the head
 		if atomic.CompareAndSwapPointer(&q.head, unsafe.Pointer(head), next) {
-			// Get the value before potentially releasing the node
-			value := nextNode.v
-
-			// Release the old head node back to the pool
-			q.releaseItem(head)
-
 			// Decrement length atomically
 			atomic.AddInt64(&q.len, -1)
 
@@ -121,23 +117,16 @@ func (q *Queue) Dequeue() any {
 
 // Length returns the number of items in the queue.
 func (q *Queue) Length() uint64 {
-	return uint64(atomic.LoadInt64(&q.len))
+	// the counter is updated after the list, so a consumer can count an
+	// element out before its producer has counted it in
+	n := atomic.LoadInt64(&q.len)
+	if n < 0 {
+		return 0
+	}
+	return uint64(n)
 }
 
 // IsEmpty returns true when the queue is empty
 func (q *Queue) IsEmpty() bool {
-	return atomic.LoadInt64(&q.len) == 0
-}
-
-// getItem retrieves a node from the pool or creates a new one
-func (q *Queue) getItem() *item {
-	return q.pool.Get().(*item)
-}
-
-// releaseItem returns a node to the pool for reuse
-func (q *Queue) releaseItem(i *item) {
-	// Reset i to prevent memory leaks
-	i.v = nil
-	i.next = nil
-	q.pool.Put(i)
+	return atomic.LoadInt64(&q.len) <= 0
 }
